@@ -58,13 +58,19 @@ class CommandShowTitles : public DFS::CommandInterface
   {
     std::unique_ptr<DFS::FileSystem> fs(storage.mount_fs(d, error));
     if (!fs)
-      return false;
+      {
+	DFS::failed_to_mount_surface(std::cerr, d, error);
+	return false;
+      }
     std::vector<std::optional<char>> subvolumes = fs->subvolumes();
     for (std::optional<char> sv : subvolumes)
       {
 	DFS::Volume *p = fs->mount(sv, error);
 	if (!p)
-	  return false;
+	  {
+	    DFS::failed_to_mount_surface(std::cerr, d, error);
+	    return false;
+	  }
 	auto vol = sv ? std::make_unique<DFS::VolumeSelector>(d, *sv) : std::make_unique<DFS::VolumeSelector>(d);
 	std::cout << (*vol) << ": " << p->root().title() << "\n";
       }
